@@ -178,6 +178,61 @@ def subst(t, fn):
     return tuple(subst(x, fn) for x in t)
 
 
+def phi_form(t):
+    """conditional expressions seen as merges: ifexp(c, a, b) -> phi(a, b), nested phis flattened.  Rules that compare the set
+    of values a variable may hold use this so that ``x = a if c else b`` (or a helper returning a or b) and
+    ``if c: x = a / else: x = b`` look the same; the conditions are then read from the guards of the bind events"""
+    def fn(x):
+        if x[0] == "ifexp":
+            x = ("phi", (x[2], x[3]))
+        if x[0] == "phi":
+            flat = []
+            for a in x[1]:
+                for b in (a[1] if a[0] == "phi" else (a,)):
+                    if b not in flat:
+                        flat.append(b)
+            return flat[0] if len(flat) == 1 else ("phi", tuple(flat))
+        return None
+    return subst(t, fn)
+
+
+def bool_form(t):
+    """a term used only for its truth value: conditional expressions over boolean constants (the decision tree of an inlined
+    predicate helper) become and/or/not"""
+    if t[0] != "ifexp":
+        return t
+    c, a, b = bool_form(t[1]), bool_form(t[2]), bool_form(t[3])
+    T_, F_ = ("const", True), ("const", False)
+
+    def neg(x):
+        return ("unary", "not", x)
+
+    def mk(op, xs):
+        flat = []
+        for x in xs:
+            flat.extend(x[2] if x[0] == "boolop" and x[1] == op else (x,))
+        return ("boolop", op, tuple(flat))
+    if a == T_ and b == F_:
+        return c
+    if a == F_ and b == T_:
+        return neg(c)
+    if a == T_:
+        return mk("or", (c, b))
+    if b == F_:
+        return mk("and", (c, a))
+    if a == F_:
+        return mk("and", (neg(c), b))
+    if b == T_:
+        return mk("or", (neg(c), a))
+    return ("ifexp", c, a, b)
+
+
+def alts(t):
+    """the alternative values of a term (phi / conditional-expression leaves)"""
+    t = phi_form(t)
+    return list(t[1]) if t[0] == "phi" else [t]
+
+
 def contains(t, pred):
     for x in walk(t):
         if pred(x):
@@ -256,15 +311,27 @@ def root_of(t):
 class Extractor(object):
     """Run over one FunctionDef; result: .events (ordered), .env_at_exit, .params"""
 
-    def __init__(self, func_node, const_resolver=None):
+    def __init__(self, func_node, const_resolver=None, inliner=None, parent=None, init_env=None, depth=0):
         self.func = func_node
-        self.events = []
-        self._seq = 0
-        self._loop_id = 0
-        self._alloc = 0
-        self.locals_alloc = {}
+        self.inliner = inliner
+        self.parent = parent
+        self.depth = depth
+        self.inlined = []            # names of the helpers that were inlined
+        if parent is None:
+            self.events = []
+            self._counters = {"seq": 0, "loop": 0, "alloc": 0}
+            self.locals_alloc = {}
+            self.loop_pre = {}
+        else:
+            # a nested extractor (inlined callee) shares the event list and the id counters of its caller
+            self.events = parent.events
+            self._counters = parent._counters
+            self.locals_alloc = parent.locals_alloc
+            self.loop_pre = parent.loop_pre
         self._exit_envs = {}
-        self.loop_pre = {}
+        self.return_values = []      # inlined callee: (value, guards relative to the call) per return statement
+        self._pending_guards = []    # guards established by an inlined callee that can only return normally under them
+        self._last_block_guards = ()
         self.params = [a.arg for a in func_node.args.posonlyargs + func_node.args.args + func_node.args.kwonlyargs]
         if func_node.args.vararg:
             self.params.append(func_node.args.vararg.arg)
@@ -273,8 +340,49 @@ class Extractor(object):
         self.const_resolver = const_resolver
         self.local_names = self._assigned_names(func_node.body)
         env = dict((p, ("param", p)) for p in self.params)
+        self._init_env = dict(init_env or {})
+        if init_env is not None:
+            env.update(init_env)
         self.exit_envs = []
-        self.falls_through, self.env_end = self.block(func_node.body, env, (), ())
+        if parent is None:
+            self.falls_through, self.env_end = self.block(func_node.body, env, (), ())
+
+    def run_inlined(self, env_guards, env_loops):
+        """evaluate the body as an inlined callee: events are appended to the caller's list under the caller's guards and
+        loops; ``return`` statements do not end the caller -- their values are collected"""
+        env = dict((p, ("param", p)) for p in self.params)
+        env.update(self._init_env)
+        n0 = len(env_guards)
+        self._env_guard_len = n0
+        self.falls_through, self.env_end = self.block(self.func.body, env, env_guards, env_loops)
+        exits = list(self.return_values)
+        if self.falls_through:
+            exits.append((("const", None), tuple(self._last_block_guards[n0:])))
+        if not exits:
+            return ("const", None)
+        # guards that hold on every normal exit hold in the caller after the call (``if bad: raise`` in a checking helper)
+        common = [g for g in exits[0][1] if all(g in e[1] for e in exits[1:])]
+        self.parent._pending_guards.extend(g for g in common if g not in self.parent._pending_guards)
+        exits = [(v, tuple(g for g in gs if g not in common)) for v, gs in exits]
+        return self._decision(exits)
+
+    @classmethod
+    def _decision(cls, exits):
+        """the value of an inlined call as a decision tree over the guards of its return statements"""
+        uniq = []
+        for v, _ in exits:
+            if v not in uniq:
+                uniq.append(v)
+        if len(uniq) == 1:
+            return uniq[0]
+        first = exits[0][1]
+        if first and all(gs and gs[0][0] == first[0][0] for _, gs in exits):
+            test = first[0][0]
+            yes = [(v, gs[1:]) for v, gs in exits if gs[0][1] is True]
+            no = [(v, gs[1:]) for v, gs in exits if gs[0][1] is False]
+            if yes and no:
+                return ("ifexp", test, cls._decision(yes), cls._decision(no))
+        return ("phi", tuple(uniq))
 
     # ---- helpers ------------------------------------------------------------------------------------
     @staticmethod
@@ -341,9 +449,16 @@ class Extractor(object):
             v.visit(s)
         return names
 
+    @property
+    def _seq(self):
+        return self._counters["seq"]
+
+    def _next(self, what):
+        self._counters[what] += 1
+        return self._counters[what]
+
     def emit(self, kind, target, value, guards, loops, node, extra=None):
-        self._seq += 1
-        ev = Event(kind, target, value, guards, loops, node, self._seq, extra)
+        ev = Event(kind, target, value, guards, loops, node, self._next("seq"), extra)
         self.events.append(ev)
         return ev
 
@@ -389,6 +504,16 @@ class Extractor(object):
                     args.append(E(a))
             kws = tuple((k.arg or "**", E(k.value)) for k in node.keywords)
             t = ("call", func, tuple(args), kws)
+            if self.inliner is not None and not bound and self.depth < 2:
+                tgt = self.inliner(func, args, kws)
+                if tgt is not None:
+                    fn_node, binding, label = tgt
+                    sub = Extractor(fn_node, inliner=self.inliner, parent=self, init_env=binding, depth=self.depth + 1)
+                    root = self
+                    while root.parent is not None:
+                        root = root.parent
+                    root.inlined.append(label)
+                    return sub.run_inlined(guards, loops)
             if not bound:
                 self.emit("call", None, t, guards, loops, node)
             else:
@@ -462,9 +587,9 @@ class Extractor(object):
     def bind(self, target, value, env, guards, loops, node):
         if isinstance(target, ast.Name):
             if self._fresh(value):
-                self._alloc += 1
-                value = ("local", target.id, self._alloc, value)
-                self.locals_alloc[(target.id, self._alloc)] = value
+                aid = self._next("alloc")
+                value = ("local", target.id, aid, value)
+                self.locals_alloc[(target.id, aid)] = value
             env[target.id] = value
             self.emit("bind", ("bound", target.id), value, guards, loops, node)
         elif isinstance(target, (ast.Tuple, ast.List)):
@@ -507,15 +632,21 @@ class Extractor(object):
             out[n] = vals[0] if len(vals) == 1 else ("phi", tuple(vals))
         return out
 
+    def _drain(self, guards):
+        pend, self._pending_guards[:] = tuple(g for g in self._pending_guards if g not in guards), []
+        return pend
+
     def block(self, stmts, env, guards, loops):
         """-> (falls_through: bool, env at the end or None).  ``env`` is mutated/replaced as we go."""
         env = dict(env)
         for s in stmts:
             ft, env2, extra_guards = self.stmt(s, env, guards, loops)
+            pend, self._pending_guards[:] = tuple(self._pending_guards), []
             if not ft:
                 return False, None
             env = env2
-            guards = guards + extra_guards
+            guards = guards + extra_guards + tuple(g for g in pend if g not in guards)
+        self._last_block_guards = guards
         return True, env
 
     def stmt(self, s, env, guards, loops):
@@ -530,9 +661,9 @@ class Extractor(object):
                 # a = b[k] = {}   : one object, give it one identity
                 names = [t.id for t in s.targets if isinstance(t, ast.Name)]
                 if names:
-                    self._alloc += 1
-                    v = ("local", names[0], self._alloc, v)
-                    self.locals_alloc[(names[0], self._alloc)] = v
+                    aid = self._next("alloc")
+                    v = ("local", names[0], aid, v)
+                    self.locals_alloc[(names[0], aid)] = v
             for t in s.targets:
                 self.bind(t, v, env, guards, loops, s)
             return True, env, ()
@@ -556,6 +687,12 @@ class Extractor(object):
             return True, env, ()
         if isinstance(s, ast.Return):
             v = E(s.value) if s.value is not None else ("const", None)
+            if self.parent is not None:
+                # inlined callee: not a return of the function under analysis; the value is bound, under the guards of the
+                # return statement, exactly as an assignment to a result variable would be
+                self.return_values.append((v, tuple(guards[self._env_guard_len:])))
+                self.emit("bind", ("bound", "<return of %s>" % self.func.name), v, guards, loops, s, extra="inlined-return")
+                return False, None, ()
             self.emit("return", None, v, guards, loops, s)
             self.exit_envs.append(dict(env))
             return False, None, ()
@@ -584,25 +721,28 @@ class Extractor(object):
             E(s.test)
             return True, env, ()
         if isinstance(s, ast.If):
-            test = E(s.test)
+            test = bool_form(E(s.test))
+            pg = self._drain(guards)
+            guards = guards + pg
             ft_a, env_a = self.block(s.body, env, guards + ((test, True),), loops)
             ft_b, env_b = self.block(s.orelse, env, guards + ((test, False),), loops)
             if ft_a and ft_b:
-                return True, self.merge([env_a, env_b]), ()
+                return True, self.merge([env_a, env_b]), pg
             if ft_a:
-                return True, env_a, ((test, True),)
+                return True, env_a, pg + ((test, True),)
             if ft_b:
-                return True, env_b, ((test, False),)
+                return True, env_b, pg + ((test, False),)
             return False, None, ()
         if isinstance(s, (ast.For, ast.While)):
-            self._loop_id += 1
-            lid = self._loop_id
+            lid = self._next("loop")
             assigned = self._assigned_names(s.body)
             if isinstance(s, ast.For):
                 it = E(s.iter)
                 assigned |= self._assigned_names([ast.Assign(targets=[s.target], value=ast.Constant(None))])
             else:
                 it = None
+            pg = self._drain(guards)
+            guards = guards + pg
             env_body = dict(env)
             for n in assigned:
                 # a use before the (re)definition inside the body sees the previous iteration's value or the
@@ -652,7 +792,7 @@ class Extractor(object):
                 ft2, merged2 = self.block(s.orelse, merged, guards, loops)
                 if ft2:
                     merged = merged2
-            return True, merged, ()
+            return True, merged, pg
         if isinstance(s, ast.Try):
             ft_body, env_body = self.block(s.body, env, guards, loops)
             outs = []
@@ -695,8 +835,8 @@ class Extractor(object):
         return True, env, ()
 
 
-def extract(func_node):
-    return Extractor(func_node)
+def extract(func_node, inliner=None):
+    return Extractor(func_node, inliner=inliner)
 
 
 # ---- guard helpers -------------------------------------------------------------------------------------
